@@ -60,6 +60,9 @@ CHECKS = {
  "C18": dict(cat="other", tech="symbolic summary of allocate/deallocate from optimised IR per (T, A, build, n): primitive pairing, size sufficiency, low-bit alignment proof, bookkeeping store provenance and claimed-vs-provable alignment",
    text="For T in {1,2,4,8,16,64-byte types} x A in {alignof(T)..4096} x builds {no macro C++11/14/17/20, SSE2 C++11/17} x n (incl. 0 and sizes not multiple of 8): allocate calls exactly one allocation primitive with a sufficient size (over-allocation: n*sizeof(T)+(A-1)+sizeof(size_t)), the returned pointer's low log2(A) bits are provably zero (or it is the primitive's pointer with a sufficient alignment argument), the offset word is written at aligned+n*sizeof(T) with value aligned-raw by an access that claims no more alignment than provable; deallocate frees exactly the pointer obtained (p, or p minus the word read byte-wise from the same place). The header must compile in every build. Any history reduces to independent pairs because the allocator is stateless (static_assert) and touches no global.",
    note="C library allocation contracts; clang -O2 preserves UB-free meaning; histories are reduced to per-call rules by statelessness", ref="4/C18", engine="E3-lanewise"),
+ "C19": dict(cat="other", tech="compile-fail / static_assert / SFINAE witnesses with g++ and clang++, compile-time constants read from IR, preprocessor conditional-region equality, wrapper catalogue as declared-and-defined parity witness",
+   text="Enumerates the macro-set lattice (each single macro with only its own flag, ladder prefixes, AVX-512 sub-extension combinations, full set) x {explicit, AVEL_AUTO_DETECT} x {g++, clang++} x standards: both public headers must compile; AVEL_AUTO_DETECT must give the same complete Vector<T,N> set and natural/max widths; static_assert witnesses demand exactly the documented widths, alias identities and completeness of vecNx*/vecMx*/mask/arr aliases, sizeof == N*sizeof(T), trivial copyability and mask triviality; every catalogue operation the width-1 vector of an element type offers must compile AND reach no declared-but-undefined avel function for every wider vector; g++ and clang++ must activate the same conditional regions outside AVEL_GCC/AVEL_CLANG blocks.",
+   note="g++ 12 / clang++ 14 front ends; NEON/MSVC/ICPX/AVX10 branches cannot be analysed here; the x86-64 baseline makes auto-detect comparison meaningless for macro sets without SSE2 (UNDECIDED)", ref="4/C19", engine="E2-witness"),
 }
 
 NA = {
@@ -100,6 +103,8 @@ def main():
                   "baseline_off_cmd": "cmake --build /repo/_build -j16 && /repo/_build/tests/AVEL_TESTS",
                   "source_commits": [], "add_only": True},
         "engines": [
+            {"name": "E2-witness", "path": "checks/c19.py", "serves_properties": ["C19"], "kind_free_text": "type-level witnesses compiled with both compilers"},
+            {"name": "E4-effects", "path": "checks/c20.py", "serves_properties": ["C20"], "kind_free_text": "effect inventory over IR JSON"},
             {"name": "E3-lanewise", "path": "lib/irterm.py", "serves_properties": sorted(k for k in CHECKS if CHECKS[k].get("engine", "E3-lanewise") == "E3-lanewise"),
              "kind_free_text": "generated wrapper TUs -> clang -O2 -emit-llvm -> irdump (libLLVM) -> abstract interpretation into a bit-vector term domain; normal-form comparison; witness from closed forms"},
         ],
